@@ -427,6 +427,12 @@ def unit_extents(U):
                     [mk(ft, s, e, "g1", "t10", seqid="chr2", strand="-") for (ft, s, e) in b]
             for fl in FLAGS:
                 R.run(lines, cfg_of(STD, fl, "file"))
+        # A4: foreign lines that carry only one of the two ids (outside the exon span)
+        for (fg, ft), (s, e), first in itertools.product([("g1", None), (None, "t1"), ("g1", "t1")], [(1, 1), (100, 100), (1, 100)], (False, True)):
+            ex = [mk("exon", 9, 10, "g1", "t1"), mk("exon", 10, 11, "g1", "t1")]
+            o = [mk("CDS", s, e, fg, ft, frame="0")]
+            for fl in FLAGS:
+                R.run(o + ex if first else ex + o, cfg_of(STD, fl, "string"))
         # A3: two genes, ids whose order differs from file order, lines interleaved
         gshapes = [[x] for x in [(1, 9), (10, 10), (9, 100)]] + [[x, y] for x in [(1, 9), (10, 10), (9, 100)] for y in [(1, 9), (10, 10), (9, 100)]]
         m = 0
@@ -439,7 +445,7 @@ def unit_extents(U):
                 R.run(lines, cfg_of(STD, fl, "iter"))
     U.bounded_result("C03.bounded.extents",
                      "database after create_db of a GTF text == oracle from the statement: one derived transcript per transcript id with subfeature lines (min start..max end, seqid, strand, attributes, bin), one derived gene per gene id over all its subfeature lines, relation table exactly {(t,line,1),(g,line,2),(g,t,1)}, flags suppress exactly the derived features; db[id], children(level), parents agree",
-                     "exhaustive: 1 gene x 1 transcript x all exon multisets of size <= %d over the %d intervals on points %s x %d foreign lines (inside/outside/none, also exon-less transcripts); 1 gene x 2 transcripts over 13 shapes each (ids t2/t10); 2 genes (g2/g10, chr1+/chr2-) x <= 2 single-exon transcripts each, interleaved; all 4 disable_infer_* combinations; standard and custom (locus/isoform/CDS) keys; from_string, file and iterator input"
+                     "exhaustive: 1 gene x 1 transcript x all exon multisets of size <= %d over the %d intervals on points %s x %d foreign lines (inside/outside/none, also exon-less transcripts); 1 gene x 2 transcripts over 13 shapes each (ids t2/t10); 2 genes (g2/g10, chr1+/chr2-) x <= 2 single-exon transcripts each, interleaved; foreign lines carrying only the gene id / only the transcript id; all 4 disable_infer_* combinations; standard and custom (locus/isoform/CDS) keys; from_string, file and iterator input"
                      % (kmax, len(I), list(points), len(others)),
                      R.cases, R.fails["main"], exhaustive=True, distinct=len(R.distinct))
 
@@ -533,7 +539,7 @@ def random_file(rng, big):
 
 
 def unit_random(U):
-    n = 12000 if U.thorough else 650
+    n = 30000 if U.thorough else 650
     with scratch() as d:
         R = Runner(d)
         tries = 0
